@@ -4,7 +4,7 @@
 //
 // Case line:   T <t0_us> G <k> <group_1> .. <group_k> ; <op> <op> ...
 // Ops:         en ek di cl ss sp sc su mr rq sq te:i td:i cy:g ok:i:iv:mv:np fl:i fi:i:iv:mv
-//              ad:us nx st:up:comp:left ST STK SP SPK (Download::start/stop composites)
+//              in:g (insert a tracker) ad:us nx st:up:comp:left bl:up_baseline:comp_baseline ST STK SP SPK (Download::start/stop composites)
 // Output:      one segment per op joined by " | ":
 //              <now_us> <flags_hex> <timeout_us|-> <tracker;tracker;..> R<req,req,..>
 //              tracker = id.enabled.busy.event.sc.fc.stl.ftl.ni.mi   (in current list order)
@@ -221,8 +221,17 @@ static std::string run_case(const std::vector<std::string>& t) {
         else if (o == "mr") tc.manual_request(false);
         else if (o == "rq") tc.start_requesting();
         else if (o == "sq") tc.stop_requesting();
-        else if (o == "te") { if (num(1) < k) find(num(1))->enable(); }
-        else if (o == "td") { if (num(1) < k) find(num(1))->disable(); }
+        else if (o == "te") { if (num(1) < (long long)workers.size()) find(num(1))->enable(); }
+        else if (o == "td") { if (num(1) < (long long)workers.size()) find(num(1))->disable(); }
+        else if (o == "in") {                         // a tracker added while running (add_extra_tracker path of TrackerList::insert)
+          torrent::TrackerInfo ti;
+          ti.url = "http://t" + std::to_string(workers.size()) + "/";
+          ti.group = num(1);
+          auto w = std::make_shared<VWorker>(ti, (int)workers.size());
+          workers.push_back(w);
+          std::shared_ptr<torrent::TrackerWorker> base = w;
+          list.insert(torrent::tracker::Tracker(std::move(base)));
+        }
         else if (o == "cy") list.cycle_group(num(1));
         else if (o == "ok" || o == "fl" || o == "fi") {
           // target: insertion index, or b / B = first / last busy tracker in current list order
@@ -232,7 +241,7 @@ static std::string run_case(const std::vector<std::string>& t) {
               auto w = static_cast<VWorker*>(tr.get_worker());
               if (w->m_inflight) { id = w->m_id; if (a[1] == "b") break; }
             }
-          } else if (num(1) < k) id = num(1);
+          } else if (num(1) < (long long)workers.size()) id = num(1);
           if (id >= 0) {
             auto w = workers[id];
             if (o == "ok") { auto iv = num(2), mv = num(3); unsigned np = num(4); on_tracker([=] { w->reply_success(iv, mv, np); }); }
@@ -241,6 +250,7 @@ static std::string run_case(const std::vector<std::string>& t) {
           }
         }
         else if (o == "st") { info.mutable_up_rate()->set_total(num(1)); comp = num(2); left = num(3); }
+        else if (o == "bl") { info.set_uploaded_baseline(num(1)); info.set_completed_baseline(num(2)); }   // Download::start resets the baselines
         else if (o == "ad" || o == "nx") {
           if (o == "ad") now += num(1);
           else if (tc.m_task_timeout.is_scheduled() && tc.m_task_timeout.time_or_zero().count() > now) now = tc.m_task_timeout.time_or_zero().count();
